@@ -449,8 +449,11 @@ func c12Content(r *Rng, w c12Writer) (string, string) {
 			b[i] = byte(r.Intn(256))
 		}
 		return string(b), "bytes"
-	case p < 66:
+	case p < 63:
 		return c12From(r, "日本語のテキストКириллица한국어😀ع", c12LogLen(r, 700)), "non-latin"
+	case p < 66: // right Unicode class, wrong alphabet: non-ASCII digits / capitals mixed with ASCII ones, at the lengths the symbologies accept
+		n := c12PickI(r, []int{2, 4, 6, 7, 8, 11, 12, 13, 14, r.Range(1, 40)})
+		return c12From(r, "0123456789٠١٢٣٤٥٦٧٨٩０１２３４５６７８９𝟎𝟗ＡＢÄΩ-$", n), "unicode-lookalikes"
 	case p < 76:
 		return c12Digits(r, c12LogLen(r, 4000)), "digits"
 	case p < 82: // digit strings of the lengths the fixed-length symbologies look at
